@@ -469,7 +469,7 @@ template<typename R> void wide_router(const char *rname, int maxw, bool c13) {
         if (deadline_passed()) { shm->exhaustive = 0; return; }
         std::string hist = fmt("wide router=%s c13=%d width=%d", rname, (int)c13, W);
         mark(hist);
-        auto name = [](int i) { return std::string("k") + std::to_string(i); };
+        auto name = [](int i) { return std::string("k") + std::to_string(i) + (i % 3 == 2 ? "-a-level-name-longer-than-any-small-string-buffer" : ""); };
         int mid = W / 2;
         R router;
         std::vector<int> called;
